@@ -363,16 +363,34 @@ def edit_constant(parameterized):
     Temporarily allow the constant parameters of a Parameterized object
     to be edited.
     """
-    if isinstance(parameterized, Parameterized):
+    private = getattr(parameterized, '_param__private', None)
+    if isinstance(parameterized, Parameterized) and isinstance(private, _InstancePrivate):
         # Only this object becomes editable, whatever Parameter objects it
         # shares with its class and so with other instances: a marker on
-        # the instance (a counter, blocks may overlap), no flag is touched
-        private = parameterized._param__private
+        # the instance (a counter, blocks may overlap). The Parameter
+        # objects the instance has of its own show constant=False meanwhile,
+        # none is created for the purpose.
         private.unlocked += 1
         try:
+            for pobj in list(private.params.values()):
+                if pobj.constant:
+                    private.unlocked_params.append(pobj)
+                    pobj.constant = False
             yield
         finally:
             private.unlocked -= 1
+            if not private.unlocked:
+                # Every flag is put back, also when a watcher of the
+                # 'constant' attribute raises on the way
+                flipped, private.unlocked_params = private.unlocked_params, []
+                failure = None
+                for pobj in flipped:
+                    try:
+                        pobj.constant = True
+                    except BaseException as e:
+                        failure = failure or e
+                if failure is not None:
+                    raise failure
         return
     # A class: the flags of its Parameters
     updated = []
@@ -557,7 +575,13 @@ def _instantiated_parameter(parameterized, param):
         key = param.name
 
         if key not in parameterized._param__private.params:
-            parameterized._param__private.params[key] = _instantiate_param_obj(param, parameterized)
+            pobj = _instantiate_param_obj(param, parameterized)
+            parameterized._param__private.params[key] = pobj
+            if parameterized._param__private.unlocked and pobj.constant:
+                # created inside edit_constant(parameterized): it shows
+                # the object as editable like its other Parameters
+                pobj.constant = False
+                parameterized._param__private.unlocked_params.append(pobj)
 
         param = parameterized._param__private.params[key]
 
@@ -1598,6 +1622,7 @@ class Parameter(_ParameterBase):
         item in a list).
         """
         name = self.name
+        hooked = False
         if obj is not None and self.allow_refs and obj._param__private.initialized:
             syncing = name in obj._param__private.syncing
             ref, deps, val, is_async = obj.param._resolve_ref(self, val, defer=True)
@@ -1611,8 +1636,9 @@ class Parameter(_ParameterBase):
                 if resolved:
                     # (what is validated further down: the value as the
                     # deprecated set_hook, if there is one, converts it)
-                    hook = getattr(self, 'set_hook', None)
-                    self._validate(val if hook is None else hook(obj, val))
+                    if hasattr(self, 'set_hook'):
+                        val, hooked = self.set_hook(obj, val), True
+                    self._validate(val)
                 self._validate_settable(obj, val, ref)
             if ref is not None:
                 obj.param._update_ref(name, ref)
@@ -1627,7 +1653,8 @@ class Parameter(_ParameterBase):
 
         # Deprecated Number set_hook called here to avoid duplicating setter
         if hasattr(self, 'set_hook'):
-            val = self.set_hook(obj, val)
+            if not hooked:
+                val = self.set_hook(obj, val)
             if self.set_hook is not _identity_hook:
                 # PARAM3_DEPRECATION
                 warnings.warn(
@@ -1937,8 +1964,8 @@ class Comparator:
             # Unordered: equal sets may iterate in different orders (the
             # elements are compared as everywhere else: objects of a type
             # not known here never count as equal)
-            return (type(obj1) is type(obj2) and len(obj1) == len(obj2) and
-                    all(any(cls.is_equal(o1, o2) for o2 in obj2) for o1 in obj1))
+            return (type(obj1) is type(obj2) and obj1 == obj2 and
+                    all(cls.is_equal(o, o) for o in obj1))
         if isinstance(obj2, (list, tuple)):
             return cls.compare_iterator(obj1, obj2)
         elif isinstance(obj2, dict):
@@ -2808,11 +2835,6 @@ class Parameters:
         for pobj in switched:
             pobj._mode = 'set'
 
-        # param.trigger re-assigns the current values: that is not an
-        # assignment by the user, a parameter that follows a reference
-        # keeps following it
-        if scope is None and self_._TRIGGER and self_.self is not None:
-            scope = _syncing(self_.self, kwargs)
         assigned = set()
         try:
             with (nullcontext() if scope is None else scope):
@@ -3009,7 +3031,11 @@ class Parameters:
         TRIGGER = self_._TRIGGER
         self_._TRIGGER = True
         try:
-            self_.update(dict(params, **triggers))
+            # Re-assigning the current values is not an assignment by the
+            # user: a parameter that follows a reference keeps following it
+            # (what the invoked watchers assign is up to them)
+            self_._assign(dict(params, **triggers),
+                          scope=None if self_.self is None else _syncing(self_.self, params))
         finally:
             self_._TRIGGER = TRIGGER
             # Restore the events and watchers that were queued before
@@ -5389,6 +5415,7 @@ class _InstancePrivate:
         'ref_watchers',
         'syncing',
         'unlocked',
+        'unlocked_params',
         'watchers',
         'values',
         'explicit_no_refs',
@@ -5409,6 +5436,7 @@ class _InstancePrivate:
         self.explicit_no_refs = [] if explicit_no_refs is None else explicit_no_refs
         self.syncing = set()
         self.unlocked = 0   # > 0 inside edit_constant(this object)
+        self.unlocked_params = []   # instance Parameters showing constant=False meanwhile
         if parameters_state is None:
             parameters_state = {
                 "BATCH_WATCH": False, # If true, Event and watcher objects are queued.
@@ -5440,7 +5468,12 @@ class _InstancePrivate:
             "watchers": [], # Queue of batched watchers
         }
         self.syncing = set()
+        # ... and locked: the Parameters that showed constant=False because
+        # the original was inside edit_constant are constants again
         self.unlocked = 0
+        for pobj in getattr(self, 'unlocked_params', None) or []:
+            pobj.constant = True
+        self.unlocked_params = []
 
 
 class Parameterized(metaclass=ParameterizedMetaclass):
